@@ -461,6 +461,10 @@ def validation_rules(repo: Repo, rep, P: str):
     from .. import inline, guards
     # private helpers that hold the conversion (`self._coerce(instance, t, value)`) are read as part of set_initial
     fn = inline.normalize(repo, ctl, repo.own_method(ctl, "set_initial"))
+    try:
+        fn = inline.resolve_flags(fn)           # `is_enum = isinstance(t, type) and issubclass(t, Enum)` read at the tests that use it
+    except Exception:
+        pass
     rep.func("rv.controller.Controller.set_initial")
     construct = f"{rel}:Controller.set_initial"
     params = [a.arg for a in fn.args.args if a.arg != "self"]
